@@ -90,11 +90,11 @@ def run(tier, seed, which="C09"):
     jobs.append(("expdef", tp, rc, err))
     # (c) the command line
     cli_events = []
-    pens = [dict(), dict(gpo=7.5), dict(gpe=3.5), dict(tgpe=2.5), dict(gpo=1, gpe=2, tgpe=3)]
+    pens = [dict(), dict(gpo=7.5), dict(gpe=3.5), dict(tgpe=2.5), dict(gpo=1, gpe=2, tgpe=3), dict(gpo=250, gpe=77.5, tgpe=123.5), dict(gpo=0, gpe=0, tgpe=0)]
     ci = 0
     for kind in ("dna", "prot"):
         for ty in [None, 0, 1, 2, 3, 4]:
-            for p in (pens if tier != "quick" else pens[:4]):
+            for p in (pens if tier != "quick" else pens[:4] + pens[5:]):
                 word = "" if ty is None else WORDS[ty]
                 args = ["-i", files[kind], "-o", os.path.join(wd, "cli%d.out" % ci), "-n", "2"]
                 if word:
